@@ -780,6 +780,10 @@ fn const_json<'tcx>(tcx: TyCtxt<'tcx>, did: DefId) -> Option<J> {
         return None;
     }
     let ty = tcx.type_of(did).instantiate_identity().skip_norm_wip();
+    let ty = match tcx.try_normalize_erasing_regions(ty::TypingEnv::post_analysis(tcx, did), ty::Unnormalized::new_wip(ty)) {
+        Ok(t) => t,
+        Err(_) => ty,
+    };
     let mut o = J::obj()
         .set("path", J::s(path_str(tcx, did)))
         .set("ty", J::s(ty_str(ty)))
